@@ -17,7 +17,7 @@ from vlib import read_ndjson, canon, ToolError, SPEC
 ARITH = ["abs", "and", "div", "minus", "mod", "mul", "neg", "not", "or", "plus", "shl", "shr", "shra", "xor",
          "eq", "ge", "gt", "le", "lt", "ne"]
 STACK = ["dup", "drop", "over", "pick2", "swap", "rot"]
-CONST = ["lit0", "lit1", "lit2", "lit7", "lit8", "c80", "cff", "c7f", "c181", "c102", "cm2"]
+CONST = ["lit0", "lit1", "lit2", "lit7", "lit8", "c80", "cff", "c7f", "c181", "c102", "c100", "cm2"]
 CTRL = ["nop", "bra1", "skip1", "skipb", "brab", "skipbad", "skipend"]
 LOC = ["reg0", "regx", "stackv", "piece1", "bitpiece", "implv", "implp"]
 SUSP = ["deref", "derefsz", "derefbig", "xderef", "dereft", "breg0", "bregx", "regvalt", "fbreg", "cfa", "tls", "addr",
